@@ -204,6 +204,35 @@ def blocks_assigning_variant(body, adt, variant, dest_local=0):
             v = sym.at(i, j).rvalue(rv)
             if v[0] == "agg" and v[1] == adt and v[2] == variant:
                 out.append((i, j, s))
+            elif v[0] == "local":
+                # several definitions reach the move (`let r = loop { .. break Ok(x) .. break Err(e) }; drop(g); r`): each
+                # definition that builds the variant is an exit row of its own, located where it is built
+                for q in _reaching_aggregates(body, op_place(rv["use"]), i, j):
+                    s2 = body.blocks[q[0]]["stmts"][q[1]]
+                    if s2["rv"]["adt"] == adt and s2["rv"]["variant"] == variant and (q[0], q[1], s2) not in out:
+                        out.append((q[0], q[1], s2))
+    return out
+
+
+def _reaching_aggregates(body, place, bb, idx, depth=0, seen=None):
+    """points (bb, idx) of the `x = Adt::Variant{..}` statements whose value arrives, through whole-value moves only, at `place` read at (bb, idx)"""
+    seen = seen if seen is not None else set()
+    if place is None or place["p"] or depth > 6:
+        return []
+    out = []
+    for pt in sorted(body.reaching_at(place["l"], bb, idx)):
+        if pt in seen or pt[0] < 0:
+            continue
+        seen.add(pt)
+        blk = body.blocks[pt[0]]
+        if pt[1] >= len(blk["stmts"]):
+            continue
+        st = blk["stmts"][pt[1]]
+        rv = st.get("rv") or {}
+        if rv.get("agg") == "adt" and isinstance(rv.get("variant"), str):
+            out.append(pt)
+        elif "use" in rv:
+            out.extend(_reaching_aggregates(body, op_place(rv["use"]), pt[0], pt[1], depth + 1, seen))
     return out
 
 
